@@ -53,14 +53,85 @@ Record cinv (ch : chan) : Prop := mkCinv {
   ci_schan : reg ch = false -> schan ch = false
 }.
 
-(* effect of a channel handler started on an empty context: invariant kept (under a precondition),
-   potential of what it leaves behind bounded, a queued create() has its wake-up scheduled *)
-Definition cx0 (ch : chan) : cx := mkCx ch [] [] [].
-Definition hspec (c slack : nat) (pre : chan -> Prop) (f : cx -> cx) : Prop :=
-  forall ch, let x' := f (cx0 ch) in
-    (cinv ch -> pre ch -> cinv (x_ch x')) /\
-    pc_pot (pc (x_ch x')) + sum_of kont_pot (x_k x') <= pc_pot (pc ch) + slack /\
-    (pc_queued (pc (x_ch x')) = true -> pc (x_ch x') = pc ch \/ In (KCreate c) (x_k x')).
+(* effect of a channel handler: invariant kept (under a precondition), potential of what it
+   leaves behind bounded, a queued create() has its wake-up scheduled *)
+Definition not_kc (k : kont) : bool := match k with KConnCleanup _ => false | _ => true end.
+Definition kspec (c slack : nat) (x x' : cx) : Prop :=
+  exists ks, x_k x' = x_k x ++ ks /\
+    pc_pot (pc (x_ch x')) + sum_of kont_pot ks <= pc_pot (pc (x_ch x)) + slack /\
+    (pc_queued (pc (x_ch x')) = true -> pc (x_ch x') = pc (x_ch x) \/ In (KCreate c) ks) /\
+    forallb not_kc ks = true.
+(* the common case: the create() program counter is untouched, at most n units of callbacks pushed *)
+Definition ksame (n : nat) (x x' : cx) : Prop :=
+  exists ks, x_k x' = x_k x ++ ks /\ pc (x_ch x') = pc (x_ch x) /\ sum_of kont_pot ks <= n /\
+             (reg (x_ch x') = true -> reg (x_ch x) = true) /\ forallb not_kc ks = true.
+Definition gs (c slack : nat) (pre : chan -> Prop) (f : cx -> cx) (x : cx) : Prop :=
+  (cinv (x_ch x) -> pre (x_ch x) -> cinv (x_ch (f x))) /\ (pre (x_ch x) -> kspec c slack x (f x)).
+Definition gsm (n : nat) (pre : chan -> Prop) (f : cx -> cx) (x : cx) : Prop :=
+  (cinv (x_ch x) -> pre (x_ch x) -> cinv (x_ch (f x))) /\ (pre (x_ch x) -> ksame n x (f x)).
+Definition ptrue (_ : chan) : Prop := True.
+
+Lemma force_eq x f : force x f = f x.
+Proof. destruct x as [ch k p d]; destruct ch; reflexivity. Qed.
+
+Lemma sum_of_app {A} (f : A -> nat) l1 l2 : sum_of f (l1 ++ l2) = sum_of f l1 + sum_of f l2.
+Proof. unfold sum_of. induction l1 as [|a l IH]; simpl; [reflexivity | rewrite IH; lia]. Qed.
+
+Lemma ksame_kspec c n x x' : ksame n x x' -> kspec c n x x'.
+Proof.
+  intros (ks & E & P & L & _ & N). exists ks. rewrite P. repeat split; auto. lia.
+Qed.
+Lemma gsm_gs c n pre f x : gsm n pre f x -> gs c n pre f x.
+Proof. intros [I K]. split; [exact I | intros Hp; apply ksame_kspec; auto]. Qed.
+
+Lemma ksame_refl x : ksame 0 x x.
+Proof. exists []. rewrite app_nil_r. simpl. repeat split; auto. Qed.
+Lemma forallb_app2 {A} (f : A -> bool) l1 l2 : forallb f l1 = true -> forallb f l2 = true -> forallb f (l1 ++ l2) = true.
+Proof. intros H1 H2. rewrite forallb_app, H1, H2. reflexivity. Qed.
+Lemma ksame_trans a b x y z : ksame a x y -> ksame b y z -> ksame (a + b) x z.
+Proof.
+  intros (k1 & E1 & P1 & L1 & R1 & N1) (k2 & E2 & P2 & L2 & R2 & N2). exists (k1 ++ k2).
+  split; [rewrite E2, E1, app_assoc; reflexivity|].
+  split; [congruence | split; [rewrite sum_of_app; lia | split; [auto | apply forallb_app2; auto]]].
+Qed.
+Lemma ksame_weaken a b x y : a <= b -> ksame a x y -> ksame b x y.
+Proof. intros L (k & E & P & Q & R & N). exists k. repeat split; auto. lia. Qed.
+
+Lemma gsm_id pre x : gsm 0 pre (fun x => x) x.
+Proof. split; [auto | intros; apply ksame_refl]. Qed.
+(* sequential composition; the second stage has no precondition *)
+Lemma gsm_comp a b pre f g x :
+  gsm a pre f x -> gsm b ptrue g (f x) -> gsm (a + b) pre (fun x => g (f x)) x.
+Proof.
+  intros [I1 K1] [I2 K2]. split.
+  - intros Hc Hp. apply I2; [apply I1; assumption | exact I].
+  - intros Hp. eapply ksame_trans; [apply K1; exact Hp | apply K2; exact I].
+Qed.
+Lemma gsm_weaken a b (pre pre' : chan -> Prop) f x :
+  a <= b -> (pre' (x_ch x) -> pre (x_ch x)) -> gsm a pre f x -> gsm b pre' f x.
+Proof. intros L Hp [I K]. split; [auto | intros; eapply ksame_weaken; eauto]. Qed.
+Lemma gsm_ext n pre f g x : f x = g x -> gsm n pre g x -> gsm n pre f x.
+Proof. unfold gsm. intros ->. auto. Qed.
+
+(* fields the invariant talks about; a handler that leaves them alone keeps the invariant *)
+Definition core_eq (a b : chan) : Prop :=
+  reg a = reg b /\ pc a = pc b /\ cev a = cev b /\ closed_w a = closed_w b /\ st_rd a = st_rd b /\
+  st_dr a = st_dr b /\ se a = se b /\ handle a = handle b /\ clog a = clog b /\ eofd a = eofd b /\
+  rbuf a = rbuf b /\ rs a = rs b /\ schan a = schan b /\ st_eof a = st_eof b.
+Lemma cinv_core a b : core_eq a b -> cinv a -> cinv b.
+Proof.
+  intros (E1 & E2 & E3 & E4 & E5 & E6 & E7 & E8 & E9 & E10 & E11 & E12 & E13 & E14) [H1 H2 H3 H4 H5 H6 H7 H8 H9 H10 H11 H12].
+  unfold expect in H8.
+  constructor; unfold expect; rewrite <- ?E1, <- ?E2, <- ?E3, <- ?E4, <- ?E5, <- ?E6, <- ?E7, <- ?E8, <- ?E9, <- ?E10,
+    <- ?E11, <- ?E12, <- ?E13, <- ?E14; assumption.
+Qed.
+Lemma upc_frame f x : (forall ch, core_eq ch (f ch)) -> gsm 0 ptrue (upc f) x.
+Proof.
+  intros Hf. destruct x as [ch k p d]. split; simpl.
+  - intros Hc _. eapply cinv_core; [apply Hf | exact Hc].
+  - intros _. exists []. simpl. rewrite app_nil_r. destruct (Hf ch) as (Er & E & _). repeat split; auto. congruence.
+Qed.
+Ltac frame := intros ch; destruct ch; repeat split; reflexivity.
 
 Ltac ev := cbv -[lstate app Nat.add Nat.le Nat.lt repeat In].
 Ltac evh := cbv -[lstate app Nat.add Nat.le Nat.lt repeat In] in *.
@@ -69,13 +140,19 @@ Ltac dmv := repeat (ev; match goal with
           | |- context [match ?d with _ => _ end] => is_var d; destruct d
           end).
 
-(* one field of the invariant of the new channel: unchanged fields are hypotheses already *)
-Ltac fld :=
-  ev;
-  first [ assumption
-        | solve [ intros; congruence ]
-        | solve [ intros; exfalso; congruence ]
-        | solve [ intuition (try congruence; try lia) ] ].
+(* one field of the invariant of the new channel: unchanged fields are hypotheses already;
+   otherwise forward chaining over the old invariant, case split on its disjunctions *)
+Ltac fwd := repeat match goal with
+  | H : ?P -> _, H' : ?P |- _ => specialize (H H')
+  | H : ?a = ?a -> _ |- _ => specialize (H eq_refl)
+  | H : _ /\ _ |- _ => destruct H
+  end.
+Ltac sfld := ev; intros; fwd; repeat match goal with H : _ \/ _ |- _ => destruct H end;
+  repeat split; first [ discriminate | reflexivity | assumption | congruence | solve [auto] ].
+Ltac fld H :=
+  first [ exact H
+        | solve [ sfld ]
+        | solve [ ev; intuition (try congruence; try lia) ] ].
 Ltac logfld H8 :=
   ev; rewrite ?lstate_snoc; rewrite ?H8;
   repeat (ev; match goal with
@@ -86,55 +163,314 @@ Ltac logfld H8 :=
 Ltac fin_cinv :=
   intros [H1 H2 H3 H4 H5 H6 H7 H8 H9 H10 H11 H12] Hpre; evh;
   constructor;
-  [ fld | fld | fld | fld | fld | fld | fld | logfld H8 | fld | fld | fld | fld ].
+  [ fld H1 | fld H2 | fld H3 | fld H4 | fld H5 | fld H6 | fld H7 | logfld H8 | fld H9 | fld H10 | fld H11 | fld H12 ].
 
+Ltac part2 := apply Nat.leb_le; vm_compute; reflexivity.
+Ltac part3 := ev; intros; first [ discriminate | left; reflexivity | right; simpl; auto 8 ].
+Ltac klist :=
+  first [ exists []; split; [ symmetry; apply app_nil_r | ]
+        | eexists; split; [ rewrite <- ?app_assoc; reflexivity | ] ].
+Ltac absurd_pre Hpre := solve [ exfalso; clear - Hpre; intuition congruence ].
+Ltac kpart := intros Hpre; evh; first [ absurd_pre Hpre | klist; split; [ part2 | split; [ part3 | reflexivity ] ] ].
+Ltac kpartm := intros Hpre; evh; first [ absurd_pre Hpre | klist; split; [ reflexivity | split; [ part2 | split; [ ev; intros Hr; first [ exact Hr | reflexivity | discriminate Hr ] | reflexivity ] ] ] ].
+
+(* brute force for one (small) handler stage *)
 Ltac hs :=
-  intros ch; destruct ch; unfold cx0; dmv;
-  (split; [ fin_cinv | split; [ cbn; lia | cbn; intuition (try congruence) ] ]).
+  intros x; destruct x as [ch k0 p0 d0]; destruct ch; unfold gs; dmv;
+  (split; [ fin_cinv | kpart ]).
+Ltac hsm :=
+  intros x; destruct x as [ch k0 p0 d0]; destruct ch; unfold gsm; dmv;
+  (split; [ fin_cinv | kpartm ]).
 
-Lemma cleanup_spec c e : hspec c 0 (fun _ => True) (chan_cleanup c e).
-Proof. Time hs. Qed.
+(* ------------------------------------------------------------------ handler stages (brute force) *)
+Lemma wake_read_spec c r x : gsm 0 ptrue (wake_read c r) x.
+Proof. revert x. hsm. Qed.
+Lemma wake_drains_spec c r x : gsm 0 ptrue (wake_drains c r) x.
+Proof. revert x. hsm. Qed.
+Lemma sess_data_spec c x : gsm 0 (fun ch => rs ch = ROpen) (sess_data c) x.
+Proof. revert x. hsm. Qed.
+Lemma prw_spec c x : gsm 0 ptrue (prw c) x.
+Proof. revert x. hsm. Qed.
+Lemma close_send_spec c x : gsm 0 ptrue (close_send c) x.
+Proof. revert x. hsm. Qed.
+Lemma flush_tail2_spec c x : gsm 0 ptrue (flush_tail2 c) x.
+Proof. revert x. hsm. Qed.
 
-Definition ptrue (_ : chan) : Prop := True.
-Lemma conn_close_chan_spec c e : hspec c 0 ptrue (conn_close_chan c e).
-Proof. Time hs. Qed.
-Lemma write_eof_spec c : hspec c 0 ptrue (write_eof c).
-Proof. Time hs. Qed.
-Lemma chan_close_spec c : hspec c 1 ptrue (chan_close c).
-Proof. Time hs. Qed.
-Lemma chan_abort_spec c : hspec c 1 ptrue (chan_abort c).
-Proof. Time hs. Qed.
-Lemma chan_write_spec c cls : hspec c 0 ptrue (chan_write c cls).
-Proof. Time hs. Qed.
-Lemma chan_pause_spec c : hspec c 0 ptrue chan_pause.
-Proof. Time hs. Qed.
-Lemma chan_resume_spec c : hspec c 1 ptrue (chan_resume c).
-Proof. Time hs. Qed.
-Lemma chan_wait_closed_spec c : hspec c 0 ptrue (chan_wait_closed c).
-Proof. Time hs. Qed.
-Lemma chan_read_spec c : hspec c 0 ptrue (chan_read c).
-Proof. Time hs. Qed.
-Lemma chan_drain_spec c : hspec c 0 ptrue (chan_drain c).
-Proof. Time hs. Qed.
-Lemma chan_confirm_spec c : hspec c 0 (fun ch => is_open_wait ch = true /\ reg ch = true) (chan_confirm c).
-Proof. Time hs. Qed.
-Lemma chan_fail_spec c : hspec c 1 (fun ch => is_open_wait ch = true /\ reg ch = true) (chan_fail c).
-Proof. Time hs. Qed.
-Lemma chan_data_spec c : hspec c 0 (fun ch => rs_open ch = true) (chan_data c).
-Proof. Time hs. Qed.
-Lemma chan_peof_spec c : hspec c 1 (fun ch => rs_open ch = true) (chan_peof c).
-Proof. Time hs. Qed.
-Lemma chan_pclose_spec c : hspec c 1 ptrue (chan_pclose c).
-Proof. Time hs. Qed.
-Lemma chan_adjust_spec c cls : hspec c 0 ptrue (chan_adjust c cls).
-Proof. Time hs. Qed.
-Lemma chan_reply_spec c ok : hspec c 0 (fun ch => reg ch = true) (chan_reply c ok).
-Proof. Time hs. Qed.
-Lemma chan_request_spec c f w a : hspec c 1 ptrue (chan_request c f w a).
-Proof. Time hs. Qed.
-Lemma create_step_spec c tr : hspec c 0 ptrue (create_step c tr).
-Proof. Time hs. Qed.
-Lemma start_reading_spec c : hspec c 1 ptrue (start_reading c).
-Proof. Time hs. Qed.
-Lemma finish_open_spec c : hspec c 1 ptrue (finish_open c).
-Proof. Time hs. Qed.
+Ltac unf f := intros x; unfold gsm; unfold f; rewrite !force_eq; cbv zeta.
+Lemma gsm_id0 n pre x : gsm n pre (fun x => x) x.
+Proof. apply (gsm_weaken 0 n pre pre (fun x => x) x); [lia | auto | apply gsm_id]. Qed.
+
+Lemma flush_tail_spec c x : gsm 0 ptrue (flush_tail c) x.
+Proof. apply (gsm_comp 0 0 ptrue (prw c) (flush_tail2 c)); [apply prw_spec | apply flush_tail2_spec]. Qed.
+
+Lemma write_eof_spec c x : gsm 0 ptrue (write_eof c) x.
+Proof.
+  revert x; unf write_eof. destruct (ss (x_ch x)); try apply (gsm_id0 0 ptrue x).
+  apply (gsm_comp 0 0 ptrue (upc (set_ss SEofPending)) (flush_tail c) x); [apply upc_frame; frame | apply flush_tail_spec].
+Qed.
+Lemma chan_write_spec c cls x : gsm 0 ptrue (chan_write c cls) x.
+Proof.
+  revert x; unf chan_write. destruct (ss (x_ch x)); try apply (gsm_id0 0 ptrue x).
+  apply (gsm_comp 0 0 ptrue (upc (set_sbuf cls)) (flush_tail c) x); [apply upc_frame; frame | apply flush_tail_spec].
+Qed.
+Lemma chan_adjust_spec c cls x : gsm 0 ptrue (chan_adjust c cls) x.
+Proof.
+  revert x; unf chan_adjust. destruct (sbuf (x_ch x)); try apply (flush_tail_spec c x);
+  (apply (gsm_comp 0 0 ptrue (upc (set_sbuf cls)) (flush_tail c) x); [apply upc_frame; frame | apply flush_tail_spec]).
+Qed.
+
+Lemma flush_recv1_spec c x : gsm 0 ptrue (flush_recv1 c) x.
+Proof. revert x. hsm. Qed.
+Lemma eof_deliver_spec c x : gsm 0 (fun ch => rs ch = REofPending /\ rbuf ch = false) (eof_deliver c) x.
+Proof. revert x. hsm. Qed.
+Lemma eof_answer_spec c x : gsm 0 ptrue (eof_answer c) x.
+Proof.
+  revert x; unf eof_answer. destruct (negb (keep (x_ch x))); [apply (write_eof_spec c x) | apply (gsm_id0 0 ptrue x)].
+Qed.
+Lemma flush_recv2_spec c x : gsm 0 ptrue (flush_recv2 c) x.
+Proof.
+  revert x; unf flush_recv2.
+  destruct (rbuf (x_ch x)) eqn:Eb; [apply (gsm_id0 0 ptrue x)|].
+  destruct (rpause (x_ch x)); [apply (gsm_id0 0 ptrue x)| |];
+    (destruct (rs (x_ch x)) eqn:Er; try apply (gsm_id0 0 ptrue x);
+     apply (gsm_comp 0 0 ptrue (eof_deliver c) (eof_answer c) x);
+     [ apply (gsm_weaken 0 0 (fun ch => rs ch = REofPending /\ rbuf ch = false) ptrue (eof_deliver c) x);
+       [reflexivity | intros _; split; assumption | apply eof_deliver_spec]
+     | apply eof_answer_spec ]).
+Qed.
+Lemma flush_recv3_spec c e x : gsm 1 ptrue (flush_recv3 c e) x.
+Proof. revert x. hsm. Qed.
+Lemma flush_recv_spec c e x : gsm 1 ptrue (flush_recv c e) x.
+Proof.
+  revert x; unf flush_recv.
+  apply (gsm_comp 0 1 ptrue (fun x => flush_recv2 c (flush_recv1 c x)) (flush_recv3 c e) x).
+  - apply (gsm_comp 0 0 ptrue (flush_recv1 c) (flush_recv2 c) x); [apply flush_recv1_spec | apply flush_recv2_spec].
+  - apply flush_recv3_spec.
+Qed.
+Lemma discard_recv_spec c x : gsm 1 ptrue (discard_recv c) x.
+Proof. revert x. hsm. Qed.
+
+Lemma chan_close1_spec c x : gsm 0 ptrue (chan_close1 c) x.
+Proof.
+  revert x; unf chan_close1. destruct (ss_closing (ss (x_ch x))); [apply (gsm_id0 0 ptrue x)|].
+  apply (gsm_comp 0 0 ptrue (upc (set_ss SClosePending)) (flush_tail c) x); [apply upc_frame; frame | apply flush_tail_spec].
+Qed.
+Lemma chan_abort1_spec c x : gsm 0 ptrue (chan_abort1 c) x.
+Proof.
+  revert x; unf chan_abort1. destruct (ss_closing (ss (x_ch x))); [apply (gsm_id0 0 ptrue x) | apply (close_send_spec c x)].
+Qed.
+Lemma chan_close2_spec c x : gsm 1 ptrue (chan_close2 c) x.
+Proof.
+  revert x; unf chan_close2.
+  destruct (rs (x_ch x)); try apply (discard_recv_spec c x). apply (gsm_id0 1 ptrue x).
+Qed.
+Lemma chan_close_spec c x : gsm 1 ptrue (chan_close c) x.
+Proof. apply (gsm_comp 0 1 ptrue (chan_close1 c) (chan_close2 c)); [apply chan_close1_spec | apply chan_close2_spec]. Qed.
+Lemma chan_abort_spec c x : gsm 1 ptrue (chan_abort c) x.
+Proof. apply (gsm_comp 0 1 ptrue (chan_abort1 c) (chan_close2 c)); [apply chan_abort1_spec | apply chan_close2_spec]. Qed.
+
+Lemma chan_pause_spec x : gsm 0 ptrue chan_pause x.
+Proof. apply upc_frame; frame. Qed.
+Lemma chan_resume_spec c x : gsm 1 ptrue (chan_resume c) x.
+Proof.
+  revert x; unf chan_resume.
+  destruct (rpause (x_ch x));
+    try (apply (gsm_comp 0 1 ptrue (upc (set_rpause PRunning)) (flush_recv c false) x); [apply upc_frame; frame | apply flush_recv_spec]).
+  apply (gsm_id0 1 ptrue x).
+Qed.
+Lemma start_reading_spec c x : gsm 1 ptrue (start_reading c) x.
+Proof.
+  revert x; unf start_reading.
+  destruct (rpause (x_ch x));
+    try (apply (gsm_comp 0 1 ptrue (upc (set_rpause PRunning)) (flush_recv c false) x); [apply upc_frame; frame | apply flush_recv_spec]);
+    apply (gsm_id0 1 ptrue x).
+Qed.
+
+Lemma set_rbuf_true_spec x : gsm 0 (fun ch => rs ch = ROpen) (upc (set_rbuf true)) x.
+Proof. revert x. hsm. Qed.
+Lemma chan_data_spec c x : gsm 0 (fun ch => rs ch = ROpen) (chan_data c) x.
+Proof.
+  revert x; unf chan_data. destruct (ss_closing (ss (x_ch x))); [apply (gsm_id0 0 (fun ch => rs ch = ROpen) x)|].
+  destruct (rpause (x_ch x)); try apply (set_rbuf_true_spec x). apply (sess_data_spec c x).
+Qed.
+Lemma set_rs_eofp_spec x : gsm 0 (fun ch => rs ch = ROpen) (upc (set_rs REofPending)) x.
+Proof. revert x. hsm. Qed.
+Lemma chan_peof_spec c x : gsm 1 (fun ch => rs ch = ROpen) (chan_peof c) x.
+Proof.
+  apply (gsm_comp 0 1 _ (upc (set_rs REofPending)) (flush_recv c false)); [apply set_rs_eofp_spec | apply flush_recv_spec].
+Qed.
+Lemma set_rs_closep_spec x : gsm 0 ptrue (upc (set_rs RClosePending)) x.
+Proof. revert x. hsm. Qed.
+Lemma chan_pclose_spec c x : gsm 1 ptrue (chan_pclose c) x.
+Proof.
+  revert x; unf chan_pclose.
+  apply (gsm_comp 0 1 ptrue (fun x => upc (set_rs RClosePending) (close_send c x)) (flush_recv c false) x).
+  - apply (gsm_comp 0 0 ptrue (close_send c) (upc (set_rs RClosePending)) x); [apply close_send_spec | apply set_rs_closep_spec].
+  - apply flush_recv_spec.
+Qed.
+
+Lemma chan_request1_spec c w a x : gsm 0 ptrue (chan_request1 c w a) x.
+Proof. revert x. hsm. Qed.
+Lemma log_started_spec x :
+  gsm 0 ptrue (fun x => match se (x_ch x) with SLive => upc (addlog CbStarted) x | _ => x end) x.
+Proof. revert x. hsm. Qed.
+Lemma chan_request2_spec c x : gsm 1 ptrue (chan_request2 c) x.
+Proof.
+  revert x; unf chan_request2.
+  apply (gsm_comp 0 1 ptrue (fun x => match se (x_ch x) with SLive => upc (addlog CbStarted) x | _ => x end) (chan_resume c) x);
+    [apply log_started_spec | apply chan_resume_spec].
+Qed.
+Lemma chan_request_spec c f w a x : gsm 1 ptrue (chan_request c f w a) x.
+Proof.
+  revert x; unf chan_request. destruct (a && f).
+  - apply (gsm_comp 0 1 ptrue (chan_request1 c w a) (chan_request2 c) x); [apply chan_request1_spec | apply chan_request2_spec].
+  - apply (gsm_weaken 0 1 ptrue ptrue (chan_request1 c w a) x); [lia | auto | apply chan_request1_spec].
+Qed.
+
+Lemma chan_wait_closed_spec c x : gsm 0 ptrue (chan_wait_closed c) x.
+Proof. revert x. hsm. Qed.
+Lemma chan_read_spec c x : gsm 0 ptrue (chan_read c) x.
+Proof. revert x. hsm. Qed.
+Lemma chan_drain_spec c x : gsm 0 ptrue (chan_drain c) x.
+Proof. revert x. hsm. Qed.
+Lemma finish_open_spec c x : gsm 1 ptrue (finish_open c) x.
+Proof. revert x. hsm. Qed.
+
+(* ------------------------------------------------ handlers that move the create() program counter *)
+Lemma kspec_refl c x : kspec c 0 x x.
+Proof. exists []. rewrite app_nil_r. simpl. repeat split; auto; lia. Qed.
+Lemma kspec_trans c a b x y z : kspec c a x y -> kspec c b y z -> kspec c (a + b) x z.
+Proof.
+  intros (k1 & E1 & P1 & Q1 & N1) (k2 & E2 & P2 & Q2 & N2). exists (k1 ++ k2).
+  split; [rewrite E2, E1, app_assoc; reflexivity|].
+  split; [rewrite sum_of_app; lia|].
+  split; [|apply forallb_app2; auto].
+  intros Hq. destruct (Q2 Hq) as [E|I].
+  - rewrite E in Hq |- *. destruct (Q1 Hq) as [E'|I']; [left; exact E' | right; apply in_or_app; left; exact I'].
+  - right; apply in_or_app; right; exact I.
+Qed.
+Lemma gs_comp c a b pre f g x :
+  gs c a pre f x -> gs c b ptrue g (f x) -> gs c (a + b) pre (fun x => g (f x)) x.
+Proof.
+  intros [I1 K1] [I2 K2]. split.
+  - intros Hc Hp. apply I2; [apply I1; assumption | exact I].
+  - intros Hp. eapply kspec_trans; [apply K1; exact Hp | apply K2; exact I].
+Qed.
+
+Lemma chan_cleanup_spec c e x : gs c 0 ptrue (chan_cleanup c e) x.
+Proof. revert x. Time hs. Qed.
+Lemma conn_close_chan_spec c e x : gs c 0 ptrue (conn_close_chan c e) x.
+Proof.
+  revert x; intros x; unfold gs, conn_close_chan; rewrite !force_eq.
+  apply (gs_comp c 0 0 ptrue (fun x => close_send c (upc (set_ss SClosed) x)) (chan_cleanup c e) x).
+  - apply gsm_gs. apply (gsm_comp 0 0 ptrue (upc (set_ss SClosed)) (close_send c) x); [apply upc_frame; frame | apply close_send_spec].
+  - apply chan_cleanup_spec.
+Qed.
+Lemma chan_confirm_spec c x : gs c 0 (fun ch => is_open_wait ch = true /\ reg ch = true) (chan_confirm c) x.
+Proof. revert x. hs. Qed.
+Lemma chan_fail_spec c x : gs c 1 (fun ch => is_open_wait ch = true /\ reg ch = true) (chan_fail c) x.
+Proof. revert x. hs. Qed.
+Lemma chan_reply_spec c ok x : gs c 0 (fun ch => reg ch = true) (chan_reply c ok) x.
+Proof. revert x. hs. Qed.
+
+Lemma create_done_spec c r x : gs c 0 ptrue (create_done c r) x.
+Proof. revert x. hs. Qed.
+Lemma create_start_spec c tr x : gs c 0 (fun ch => pc ch = CStart) (create_start c tr) x.
+Proof. revert x. hs. Qed.
+Lemma sess_made_spec c x : gs c 0 (fun ch => pc ch = COpenRes WOk /\ reg ch = true) sess_made x.
+Proof. revert x. hs. Qed.
+Lemma req_sent_spec c st x :
+  gs c 0 (fun ch => schan ch = true /\ pc_pot (CWaitReq st) <= pc_pot (pc ch) /\ pc_presess (pc ch) = false) (req_sent c st) x.
+Proof.
+  revert x. intros x; destruct x as [ch k0 p0 d0]; destruct ch; unfold gs; dmv;
+  (split; [ fin_cinv | intros Hpre; cbn in Hpre; destruct Hpre as (Hs & Hp & _);
+                       first [ discriminate Hs
+                             | klist; split; [ cbn; cbn in Hp; lia | split; [ part3 | reflexivity ] ] ] ]).
+Qed.
+Lemma sess_started_spec c x :
+  gs c 0 (fun ch => pc ch = CReqRes StFinal WOk /\ se ch = SLive) (sess_started c) x.
+Proof. revert x. hs. Qed.
+
+(* `if not result: self.close(); raise`: at most one callback pushed, the coroutine is finished *)
+Lemma req_false_spec c x : gs c 0 (fun ch => 1 <= pc_pot (pc ch)) (req_false c) x.
+Proof.
+  unfold req_false.
+  destruct (chan_close_spec c x) as [I1 K1].
+  destruct (create_done_spec c WErr (chan_close c x)) as [I2 K2].
+  split.
+  - intros Hc _. apply I2; [apply I1; [exact Hc | exact I] | exact I].
+  - intros Hp. destruct (K1 I) as (k1 & E1 & P1 & L1 & _ & N1).
+    assert (Hd : pc (x_ch (create_done c WErr (chan_close c x))) = CDone WErr /\
+                 x_k (create_done c WErr (chan_close c x)) = x_k (chan_close c x)).
+    { unfold create_done. rewrite force_eq. destruct (chan_close c x) as [ch k p d]. split; reflexivity. }
+    destruct Hd as [Hd Hk]. exists k1. split; [rewrite Hk, E1; reflexivity|].
+    rewrite Hd. cbn [pc_pot pc_queued]. split; [lia | split; [discriminate | exact N1]].
+Qed.
+Lemma make_request_spec c st x :
+  gs c 0 (fun ch => pc_pot (CWaitReq st) <= pc_pot (pc ch) /\ 1 <= pc_pot (pc ch) /\ pc_presess (pc ch) = false)
+     (make_request c st) x.
+Proof.
+  unfold gs, make_request; rewrite !force_eq. destruct (schan (x_ch x)) eqn:Es.
+  - destruct (req_sent_spec c st x) as [I K]. split; intros; [apply I | apply K]; intuition.
+  - destruct (req_false_spec c x) as [I K]. split; intros; [apply I | apply K]; intuition.
+Qed.
+
+Lemma create_step_spec c tr x : gs c 0 ptrue (create_step c tr) x.
+Proof.
+  unfold create_step, create_step_gen, gs; rewrite !force_eq; cbn [andb].
+  pose proof (kspec_refl c x) as Kid.
+  destruct (pc (x_ch x)) as [| | |r| |st|st r|r] eqn:Epc; try (split; [auto | intros; exact Kid]).
+  - (* CStart *)
+    destruct (create_start_spec c tr x) as [I K]. split; intros; [apply I | apply K]; auto.
+  - (* COpenRes r *)
+    destruct r; try (destruct (create_done_spec c WErr x) as [I K]; split; intros; [apply I | apply K]; auto; fail).
+    destruct (negb (reg (x_ch x))) eqn:Er.
+    + destruct (create_done_spec c WErr x) as [I K]. split; intros; [apply I | apply K]; auto.
+    + apply Bool.negb_false_iff in Er.
+      destruct (sess_made_spec c x) as [I1 K1].
+      assert (Hpc : pc (x_ch (sess_made x)) = CMade) by (destruct x as [ch k p d]; reflexivity).
+      assert (Hpty : pty (x_ch (sess_made x)) = pty (x_ch x)) by (destruct x as [ch k p d]; destruct ch; reflexivity).
+      destruct (make_request_spec c (if pty (x_ch x) then StPty else StFinal) (sess_made x)) as [I2 K2].
+      assert (Hp2 : pc_pot (CWaitReq (if pty (x_ch x) then StPty else StFinal)) <= pc_pot (pc (x_ch (sess_made x))) /\
+                    1 <= pc_pot (pc (x_ch (sess_made x))) /\ pc_presess (pc (x_ch (sess_made x))) = false).
+      { rewrite Hpc. destruct (pty (x_ch x)); cbn; repeat split; lia. }
+      split.
+      * intros Hc _. apply I2; [apply I1; auto | exact Hp2].
+      * intros _. replace 0 with (0 + 0) by reflexivity. eapply kspec_trans; [apply K1; auto | apply K2; exact Hp2].
+  - (* CReqRes st r *)
+    destruct st, r.
+    + (* pty ok -> final request *)
+      destruct (make_request_spec c StFinal x) as [I K]. rewrite Epc in *.
+      split; intros; [apply I | apply K]; cbn; auto; repeat split; lia.
+    + destruct (req_false_spec c x) as [I K]. rewrite Epc in *. split; intros; [apply I | apply K]; cbn; auto; lia.
+    + destruct (create_done_spec c WErr x) as [I K]. split; intros; [apply I | apply K]; auto.
+    + destruct (se (x_ch x)) eqn:Ese.
+      * destruct (create_done_spec c WErr x) as [I K]. split; intros; [apply I | apply K]; auto.
+      * destruct (sess_started_spec c x) as [I K]. split; intros; [apply I | apply K]; auto.
+      * destruct (create_done_spec c WErr x) as [I K]. split; intros; [apply I | apply K]; auto.
+    + destruct (req_false_spec c x) as [I K]. rewrite Epc in *. split; intros; [apply I | apply K]; cbn; auto; lia.
+    + destruct (create_done_spec c WErr x) as [I K]. split; intros; [apply I | apply K]; auto.
+Qed.
+
+(* after a run of create() the coroutine is never left "queued" *)
+Lemma create_step_unq c tr x : pc_queued (pc (x_ch (create_step c tr x))) = false.
+Proof.
+  assert (Hd : forall r y, pc (x_ch (create_done c r y)) = CDone r)
+    by (intros r y; unfold create_done; rewrite force_eq; destruct y as [ch k p d]; reflexivity).
+  assert (Hrf : forall y, pc (x_ch (req_false c y)) = CDone WErr) by (intros y; unfold req_false; apply Hd).
+  assert (Hmr : forall st y, pc_queued (pc (x_ch (make_request c st y))) = false).
+  { intros st y. unfold make_request. rewrite force_eq. destruct (schan (x_ch y)).
+    - unfold req_sent. rewrite force_eq. destruct (csend (KtReq c st) y) as [ch k p d]. reflexivity.
+    - rewrite Hrf. reflexivity. }
+  unfold create_step, create_step_gen; rewrite !force_eq; cbn [andb].
+  destruct (pc (x_ch x)) as [| | |r| |st|st r|r] eqn:Epc; try (rewrite Epc; reflexivity).
+  - unfold create_start. rewrite force_eq. destruct tr; [destruct x as [ch k p d]; reflexivity | rewrite Hd; reflexivity].
+  - destruct r; try (rewrite Hd; reflexivity). destruct (negb (reg (x_ch x))); [rewrite Hd; reflexivity | apply Hmr].
+  - destruct st, r; try (rewrite Hd; reflexivity); try (rewrite Hrf; reflexivity); try apply Hmr.
+    destruct (se (x_ch x)); try (rewrite Hd; reflexivity).
+    unfold sess_started. rewrite force_eq.
+    destruct (create_done c WOk (upc (fun ch : chan => set_handle true (addlog CbStarted ch)) x)) as [ch k p d] eqn:E.
+    assert (pc ch = CDone WOk) by (change ch with (x_ch (mkCx ch k p d)); rewrite <- E; apply Hd).
+    cbn. rewrite H. reflexivity.
+Qed.
+
